@@ -90,6 +90,10 @@ peg::parser! {
             "(" _ expr:expression() _ ")" { expr }
         }
 
+        // N.B. The assignment and increment alternatives above each start by parsing an lvalue;
+        // without memoization a nested subscript (`a[a[a[...]]]`) is re-parsed by every one of
+        // them at every level, which is exponential in the nesting depth.
+        #[cache]
         rule lvalue() -> ast::ArithmeticTarget =
             name:variable_name() "[" index:expression() "]" {
                 ast::ArithmeticTarget::ArrayElement(name.to_owned(), Box::new(index))
